@@ -921,24 +921,6 @@ pub fn run() {
         c.case("degenerate", None);
     });
 
-    // ---- random matrices ----
-    let n_rand = t.pick(60_000usize, 5_000_000usize);
-    par_cases("random", n_rand, move |r, i| {
-        let mut st = Stats::default();
-        let (m, class) = gen_matrix(r, 24);
-        let xc = 1 + r.below(6);
-        let x0 = if r.chance(0.3) { F2::identity(m.rows) } else { rand_uniform(r, m.rows, xc, 0.5) };
-        check_matrix(&CaseId { family: "random", index: i, class }, &m, &x0, None, &mut st);
-        st.add(&format!("class:{class}"), 1);
-        st.add(&format!("size:rows<={:02}", ((m.rows + 5) / 6) * 6), 1);
-        st.add(&format!("size:cols<={:02}", ((m.cols + 5) / 6) * 6), 1);
-        if m.rows == 24 || m.cols == 24 {
-            st.add("size:dimension-24-reached", 1);
-        }
-        st.flush();
-        ctx().sample_n(5, || json!({"family": "random", "index": i, "class": class, "matrix": m.to_json(), "rank": m.rank(), "proxy_x": x0.to_json()}));
-    });
-
     // ---- algebra: exhaustive small pairs ----
     let amax = 3usize;
     let abits = t.pick(12usize, 18usize);
@@ -1008,6 +990,23 @@ pub fn run() {
         check_algebra("algebra-random", i, &a, &b, &b2, &c3, &d, &e, &f, &mut st);
         check_primitives("algebra-random", i, r, &a, &mut st);
         st.flush();
+    });
+    // ---- random matrices (the bulk of the time; last so that a time cut never starves the other families) ----
+    let n_rand = t.pick(60_000usize, 3_000_000usize);
+    par_cases("random", n_rand, move |r, i| {
+        let mut st = Stats::default();
+        let (m, class) = gen_matrix(r, 24);
+        let xc = 1 + r.below(6);
+        let x0 = if r.chance(0.3) { F2::identity(m.rows) } else { rand_uniform(r, m.rows, xc, 0.5) };
+        check_matrix(&CaseId { family: "random", index: i, class }, &m, &x0, None, &mut st);
+        st.add(&format!("class:{class}"), 1);
+        st.add(&format!("size:rows<={:02}", ((m.rows + 5) / 6) * 6), 1);
+        st.add(&format!("size:cols<={:02}", ((m.cols + 5) / 6) * 6), 1);
+        if m.rows == 24 || m.cols == 24 {
+            st.add("size:dimension-24-reached", 1);
+        }
+        st.flush();
+        ctx().sample_n(5, || json!({"family": "random", "index": i, "class": class, "matrix": m.to_json(), "rank": m.rank(), "proxy_x": x0.to_json()}));
     });
 }
 
